@@ -78,7 +78,14 @@ def preds_of(case):
                     P.add("prog.body_const")
                 if l["r"] == c["h"]["r"]:
                     P.add("prog.self_recursive")
+        for l in lits(c):
+            if l["k"] == "cmp" and l["op"] == "=":
+                P.add("prog.cmp_eq")
         if any(a["t"] == "agg" for a in c["h"]["a"]):
+            if any(l["k"] in ("cmp", "asg") for l in lits(c)):
+                P.add("prog.agg_with_cmp")
+            if any(l["k"] == "pos" and any(a["t"] == "_" for a in l["a"]) for l in lits(c)):
+                P.add("prog.agg_with_wildcard")
             P.add("prog.has_agg")
             for a in c["h"]["a"]:
                 if a["t"] == "agg":
@@ -111,10 +118,24 @@ def verdict_preds(prop, info):
     if prop == "C01":
         if info.get("ok") is False:
             P.add("res.err")
-        elif info.get("got", 0) < info.get("want", 0):
-            P.add("res.missing_rows")
-        elif info.get("got", 0) > info.get("want", 0):
-            P.add("res.extra_rows")
+        if info.get("defgood") is False:
+            P.add("default.wrong")
+        if info.get("offgood") is False:
+            P.add("alloff.wrong")
+        if info.get("defgood") is True:
+            P.add("default.right")
+    if prop == "C06":
+        bad = info.get("bad", [])
+        if len(bad) == 32:
+            P.add("bad.every_setting")
+        for k in ("jp", "sip", "ss", "bs", "ms"):
+            vals = {b[k] for b in bad}
+            if vals == {1}:
+                P.add(f"bad.only_when_{k}_on")
+            if vals == {0}:
+                P.add(f"bad.only_when_{k}_off")
+        if not any(b["jp"] and b["sip"] and b["ss"] and b["bs"] and b["ms"] for b in bad):
+            P.add("default.right")
     if prop == "C04":
         for t in info.get("ans", []):
             P.add("differs." + t)
